@@ -169,6 +169,9 @@ func (w *Writer) Close(m Meta) error {
 		if w.shardSize < 40 {
 			w.shardSize = 40
 		}
+		if w.shardSize > 600 { // ~0.35 GB of coqc memory per 1000 cases of typical size
+			w.shardSize = 600
+		}
 	}
 	for i := 0; i < len(sel); i += w.shardSize {
 		j := i + w.shardSize
